@@ -40,7 +40,7 @@ REQUIRED_MONITORS = ["ti-M1-text-equals-description", "ti-M3-reload-equals-descr
                      "ti-M5-file-roundtrip", "di-M1-text", "di-M3-reload", "di-M4-redump", "di-M5-file"]
 TI_FORCES = ["src-tree", "layered", "several-platforms", "depth-3", "child-every-type", "single-variant", "dashed-top-optional",
              "dashed-top-variant", "paths-all", "paths-none", "path-empty-string", "images", "mixed-case-options", "stage2",
-             "media", "checksums", "many-variants", "platform-named-like-legacy-section", "dashed-top-with-children", "two-dashed-top-optionals"]
+             "media", "checksums", "many-variants", "platform-named-like-legacy-section", "dashed-top-with-children", "two-dashed-top-optionals", "checksum-keys-as-spelled"]
 DI_FORCES = ["timestamp-17-digits", "timestamp-negative", "description-interior-quotes", "description-quote-at-one-end",
              "description-hostile", "disc-all", "disc-list", "disc-single"]
 CLASS_FLOORS = {"dashed-top-with-children": 5, "platform-named-like-legacy-section": 5, "many-variants": 5, "media-ten-or-more": 3, "src-tree": 5, "binary-tree": 5, "layered": 5, "several-top-variants": 5, "depth-3": 5,
